@@ -265,12 +265,23 @@ func (g *fileGen) embedHeavy(used map[string]bool) {
 	}
 	nHosts := rapid.IntRange(1, 2).Draw(t, "eh_hosts")
 	done := map[string]bool{}
+	var chosen []*ir.Message
 	for hi := 0; hi < nHosts; hi++ {
 		host := rapid.SampledFrom(hosts).Draw(t, "eh_host")
-		if done[host.Name] {
-			continue
+		if !done[host.Name] {
+			done[host.Name] = true
+			chosen = append(chosen, host)
 		}
-		done[host.Name] = true
+	}
+	// a host is not a leaf any more: the new messages must not refer to it (two hosts would close a cycle)
+	var keep []string
+	for _, l := range leaves {
+		if !done[l] {
+			keep = append(keep, l)
+		}
+	}
+	leaves = keep
+	for hi, host := range chosen {
 		tag := fmt.Sprintf("Eh%c", 'P'+hi) // no digits: gogo capitalises a letter that follows a digit, the plugin does not
 		num := int32(0)
 		for _, fl := range host.Fields {
